@@ -525,3 +525,112 @@ Fixpoint recv_count (fuel : nat) (s : Packet.rstate) : Z :=
                   end
            end
   end.
+
+(* ====================================================================================== *)
+(* 8. X11 setup block parser (x11.py SSHX11ClientForwarder: data_received, _recv_prefix, _recv_auth_proto,
+      _recv_auth_data).  The hostile server opens an "x11" channel and sends the X11 connection setup; the
+      forwarder checks the cookie it handed out ([remote]) and replaces it by the local display's ([local])
+      before passing the block on to the X server.  Three handlers, then None; [xneed] = _bytes_needed.
+      On a good cookie `self._inpbuf = prefix + proto + pad + local + pad` REPLACES the buffer (bytes that
+      arrived behind the auth data in the same chunk are dropped - as in the code); on a bad cookie the
+      failure reply and EOF go back to the channel and the buffer is emptied.  In both cases the handler is
+      cleared, which is what ends the while loop. *)
+
+Inductive xhandler := XPrefix | XProto | XData | XNone.
+
+Record x11 := mkX {
+  xh : xhandler; xneed : Z; xbuf : bytes; xbig : bool;
+  xprefix : bytes; xproto : bytes; xppad : bytes; xplen : Z; xdlen : Z;
+  xfwd : bytes;          (* everything passed on to the local X server *)
+  xreply : bytes;        (* everything written back to the channel *)
+  xeof : bool }.         (* write_eof() called *)
+
+Definition x11_init : x11 := mkX XPrefix 12 [] false [] [] [] 0 0 [] [] false.
+
+Definition xrank (h : xhandler) : Z :=
+  match h with XPrefix => 3 | XProto => 2 | XData => 1 | XNone => 0 end.
+
+Section X11.
+  Variable remote : bytes.     (* the cookie sent in x11-req *)
+  Variable local : bytes.      (* the cookie of the local display *)
+
+  Definition padded (n : Z) : Z := ((n + 3) / 4) * 4.
+  Definition pad4 (d : bytes) : bytes :=
+    let r := (blen d) mod 4 in d ++ (if r =? 0 then [] else repeat 0 (Z.to_nat (4 - r))).
+  Definition dec16 (big : bool) (a b : Z) : Z := if big then a * 256 + b else b * 256 + a.
+  Definition enc16 (big : bool) (v : Z) : bytes :=
+    if big then [v / 256; v mod 256] else [v mod 256; v / 256].
+
+  (* b'Invalid authentication key\n' *)
+  Definition x_reason : bytes :=
+    [73;110;118;97;108;105;100;32;97;117;116;104;101;110;116;105;99;97;116;105;111;110;32;107;101;121;10].
+  Definition x_failure (big : bool) : bytes :=
+    [0; blen x_reason] ++ enc16 big 11 ++ enc16 big 0 ++ enc16 big ((blen x_reason + 3) / 4) ++ pad4 x_reason.
+
+  Definition x_handle (s : x11) (data : bytes) : x11 :=
+    match xh s with
+    | XPrefix =>
+        let big := nth 0 data 0 =? 66 in
+        let plen := dec16 big (nth 6 data 0) (nth 7 data 0) in
+        let dlen := dec16 big (nth 8 data 0) (nth 9 data 0) in
+        mkX XProto (padded plen) (xbuf s) big data (xproto s) (xppad s) plen dlen (xfwd s) (xreply s) (xeof s)
+    | XProto =>
+        mkX XData (padded (xdlen s)) (xbuf s) (xbig s) (xprefix s)
+            (firstn (Z.to_nat (xplen s)) data) (skipn (Z.to_nat (xplen s)) data)
+            (xplen s) (xdlen s) (xfwd s) (xreply s) (xeof s)
+    | XData =>
+        let auth := firstn (Z.to_nat (xdlen s)) data in
+        let dpad := skipn (Z.to_nat (xdlen s)) data in
+        if zlist_eqb auth remote
+        then mkX XNone 0 (xprefix s ++ xproto s ++ xppad s ++ local ++ dpad) (xbig s) (xprefix s) (xproto s)
+                 (xppad s) (xplen s) (xdlen s) (xfwd s) (xreply s) (xeof s)
+        else mkX XNone 0 [] (xbig s) (xprefix s) (xproto s) (xppad s) (xplen s) (xdlen s) (xfwd s)
+                 (xreply s ++ x_failure (xbig s)) true
+    | XNone => s
+    end.
+
+  Definition x_setbuf (s : x11) (b : bytes) : x11 :=
+    mkX (xh s) (xneed s) b (xbig s) (xprefix s) (xproto s) (xppad s) (xplen s) (xdlen s) (xfwd s) (xreply s) (xeof s).
+  Definition x_forward (s : x11) (d : bytes) : x11 :=
+    mkX (xh s) (xneed s) (xbuf s) (xbig s) (xprefix s) (xproto s) (xppad s) (xplen s) (xdlen s) (xfwd s ++ d)
+        (xreply s) (xeof s).
+
+  (* one pass of `while self._recv_handler:`; None = return (more bytes needed) *)
+  Definition x_iter (s : x11) : option x11 :=
+    if blen (xbuf s) >=? xneed s
+    then Some (x_handle (x_setbuf s (skipn (Z.to_nat (xneed s)) (xbuf s))) (firstn (Z.to_nat (xneed s)) (xbuf s)))
+    else None.
+
+  (* the loop; result: state, iterations, and whether the loop was left because the handler is None *)
+  Fixpoint x_loop (fuel : nat) (s : x11) (iters : Z) : option (x11 * Z * bool) :=
+    match xh s with
+    | XNone => Some (s, iters, true)
+    | _ => match fuel with
+           | O => None
+           | S f => match x_iter s with
+                    | Some s' => x_loop f s' (iters + 1)
+                    | None => Some (s, iters + 1, false)
+                    end
+           end
+    end.
+
+  (* data_received(chunk) *)
+  Definition x_feed (s : x11) (chunk : bytes) : option (x11 * Z) :=
+    match xh s with
+    | XNone => Some (x_forward s chunk, 0)
+    | _ => match x_loop 4 (x_setbuf s (xbuf s ++ chunk)) 0 with
+           | None => None
+           | Some (s', it, true) => Some (x_forward (x_setbuf s' []) (xbuf s'), it)
+           | Some (s', it, false) => Some (s', it)
+           end
+    end.
+
+  Fixpoint x_run (s : x11) (chunks : list bytes) (total : Z) : option (x11 * Z) :=
+    match chunks with
+    | [] => Some (s, total)
+    | c :: r => match x_feed s c with
+                | None => None
+                | Some (s', it) => x_run s' r (total + it)
+                end
+    end.
+End X11.
